@@ -150,3 +150,36 @@ fn('dsplib::Pow2FftPlan::Pow2FftPlan', P2, serves=['C01', 'C05'], assigns=['this
    ensures=[('invariant', P2_OK),
             ('size', 'n_ == n'),
             ('twiddles', 'forall(lambda k: Implies(And(0 <= k, k < n), And(coeffs_[k].re == TWR(k, n), coeffs_[k].im == TWI(k, n))))')])
+
+# ---------------------------------------------------------------------------------------------------
+# even-size real plan: packing into a half-size complex transform and untangling
+fn('dsplib::BaseFftPlanC::solve', F, sig='(const dsplib::arr_cmplx &) const', key='BaseFftPlanC::solve(arr)', serves=['C01'], trusted=True, pure=True, extra_env=ENV,
+   requires=[('nonempty', 'x.len >= 1')],
+   ensures=[('length', 'result.len == x.len'),
+            ('is_dft', 'And(same(re_data(result), DFT_RE(re_data(x), im_data(x), x.len)), same(im_data(result), DFT_IM(re_data(x), im_data(x), x.len)))')],
+   notes='assumed: a complex plan of the right size returns the transform of its input (virtual call through the plan interface)')
+
+RF_OK = 'And(n_ >= 2, tmod(n_, 2) == 0, w_.len == tdiv(n_, 2), w_[0].re == 1, w_[0].im == 0)'
+UNT = '(Z[K] + Z[n2 - K].conj()) + cx(0, 1) * ((Z[n2 - K].conj() - Z[K]) * w_[K])'
+fn('dsplib::RealFftPlan::solve', F, serves=['C01', 'C05', 'C09'], pure=True, extra_env=ENV,
+   requires=[('invariant', RF_OK), ('ghost', 'And(1 <= k0, k0 < tdiv(n_, 2))')],
+   lets={'n2': 'tdiv(n_, 2)', 'k0': 'ghost_int("bin")'},
+   throws='x.len != n_',
+   ensures=[('length', 'result.len == n_'),
+            # untangling step written from the textbook identity X[k] = (Z[k] + conj Z[n/2-k]) + i*w[k]*(conj Z[n/2-k] - Z[k])
+            ('untangle', 'exists_w(lambda ZR, ZI: result[k0] == ' + UNT.replace('Z[K]', 'cx(ZR[k0], ZI[k0])').replace('Z[n2 - K]', 'cx(ZR[n2 - k0], ZI[n2 - k0])').replace('w_[K]', 'w_[k0]') + ', re_data(Z), im_data(Z))'),
+            ('conjugate_symmetric', 'And(result[n_ - k0].re == result[k0].re, result[n_ - k0].im == -result[k0].im)'),
+            ('real_dc_and_nyquist', 'And(result[0].im == 0, result[n2].im == 0)')],
+   loops={1: {'inv': [('len', 'And(res.len == n_, Z.len == n2)'),
+                      ('dc', 'res[0].im == 0'),
+                      ('done', 'Implies(k0 < i, And(res[k0] == ' + UNT.replace('K', 'k0') + ', res[n_ - k0].re == res[k0].re, res[n_ - k0].im == -res[k0].im))')]}})
+
+fn('dsplib::create_fft_plan', F, key='create_fft_plan', serves=['C01', 'C10'], trusted=True,
+   requires=[('size', 'n >= 1')],
+   notes='assumed: returns a complex plan of size n (the cache in front of it is proved separately: contracts/lru.py)')
+fn('dsplib::RealFftPlan::RealFftPlan', F, serves=['C01', 'C05'], assigns=['this'], extra_env=ENV,
+   requires=[('size', 'And(n >= 2, n <= 2000000)')],
+   throws='tmod(n, 2) != 0',
+   post_facts=['TRIG8(0)', '-2 * PI * ToReal(IntVal(0)) / ToReal(n) == 0'],
+   ensures=[('invariant', RF_OK), ('size', 'n_ == n'),
+            ('twiddles', 'forall(lambda k: Implies(And(0 <= k, k < tdiv(n, 2)), And(w_[k].re == COS(-2 * PI * ToReal(k) / ToReal(n)), w_[k].im == SIN(-2 * PI * ToReal(k) / ToReal(n)))))')])
